@@ -133,7 +133,7 @@ class Ctx:
         self.t0 = time.time()
         self.jobs = collections.OrderedDict()
         self._chains = {}
-        self.deep_budget = float(os.environ.get("VERIF_DEEP_BUDGET", "900"))   # s of wall time during which deep queries are started
+        self.deep_budget = float(os.environ.get("VERIF_DEEP_BUDGET", "600"))   # s of wall time during which deep queries are started
         self.records = []       # query records (evidence)
         self.bench_records = {}
         self.violations = []    # confirmed, not known
@@ -162,9 +162,9 @@ class Ctx:
         per bad signal)."""
         if self.tier == "thorough":
             # keep a thorough run bounded: frames up to the floor depth get at most 15 minutes per query, deeper frames are
-            # explored in order with 400 s each (started only during the first 15 minutes) and reported as the depth reached
+            # explored in order with 300 s each (started only during the first 10 minutes) and reported as the depth reached
             timeout = min(timeout or 900, 900)
-            kw.setdefault("deep_timeout", 400)
+            kw.setdefault("deep_timeout", 300)
             if min_K is not None and (chunk is None or chunk > 2):
                 chunk = 2
         self.jobs[bench_name] = dict(K=K, chunk=chunk, timeout=timeout, induction=induction,
